@@ -11,8 +11,9 @@
    THAT LEVEL (for a nested chart: the subchart's defaults coalesced at the top level of the
    parent's coalesced values); conditions are evaluated after tags and override them; charts
    are removed BY NAME (every requirement and chart carrying the name of a disabled
-   requirement goes); a chart whose Metadata.Dependencies is nil is not descended into; an
-   empty kept list becomes nil again. *)
+   requirement goes); an empty kept list of requirement records becomes nil again.
+   After fix 20099bc a chart without requirements of its own is still descended into (only a
+   chart with neither requirements nor subcharts returns at once). *)
 From Coq Require Import List String Ascii Bool ZArith.
 From Helm Require Import Values.Tree Values.Schema Values.Scope.
 Import ListNotations.
@@ -22,6 +23,8 @@ Definition set_enabled (r : dependency) (b : bool) : dependency :=
   mkDep (dname r) (dversion r) (dcond r) (dtags r) (dalias r) b (dimports r).
 Definition set_dname (r : dependency) (n : string) : dependency :=
   mkDep n (dversion r) (dcond r) (dtags r) (dalias r) (denabled r) (dimports r).
+
+Definition mdeps_list (c : chart) : list dependency := match cmdeps c with Some l => l | None => [] end.
 
 Definition nonempty (s : string) : bool := match s with EmptyString => false | _ => true end.
 
@@ -144,25 +147,28 @@ Section WithCompat.
     end.
 
   (* one level of processDependencyEnabled, given the children as [kid]s *)
-  Definition pde_level (c : chart) (kids : list kid) (v : vmap) (path : string) : res chart :=
-    match cmdeps c with
-    | None => Ok c
-    | Some reqs0 =>
-        let ks := resolved_kids kids reqs0 in
-        let reqs := resolved_reqs reqs0 in
-        match CoalesceValues (set_deps c (map fst ks)) v with
+  Definition pde_body (c : chart) (kids : list kid) (v : vmap) (path : string) : res chart :=
+    let reqs0 := mdeps_list c in
+    let ks := resolved_kids kids reqs0 in
+    let reqs := resolved_reqs reqs0 in
+    match CoalesceValues (set_deps c (map fst ks)) v with
+    | Err e => Err e
+    | Ok cvals =>
+        let flagged := flag_reqs reqs cvals path in
+        let rm := removed_names flagged in
+        let cd := filter (fun ek => not_removed rm (cname (fst ek))) ks in
+        let cdm := filter (fun r => not_removed rm (dname r)) flagged in
+        match process_kept cd cvals path with
         | Err e => Err e
-        | Ok cvals =>
-            let flagged := flag_reqs reqs cvals path in
-            let rm := removed_names flagged in
-            let cd := filter (fun ek => not_removed rm (cname (fst ek))) ks in
-            let cdm := filter (fun r => not_removed rm (dname r)) flagged in
-            match process_kept cd cvals path with
-            | Err e => Err e
-            | Ok cd' =>
-                Ok (set_mdeps (set_deps c cd') (match cdm with [] => None | _ => Some cdm end))
-            end
+        | Ok cd' =>
+            Ok (set_mdeps (set_deps c cd') (match cdm with [] => None | _ => Some cdm end))
         end
+    end.
+
+  Definition pde_level (c : chart) (kids : list kid) (v : vmap) (path : string) : res chart :=
+    match cmdeps c, kids with
+    | None, [] => Ok c                      (* no requirements and no subcharts *)
+    | _, _ => pde_body c kids v path
     end.
 
   (* processDependencyEnabled *)
